@@ -90,6 +90,39 @@ DOC_BADVAL = '<doc xmlns="urn:t"><item n="x"><v>a</v></item></doc>'
 DOC_PFX1 = '<p:parentB xmlns:p="urn:b" xmlns:q="urn:q" q:k="p:v"/>'
 DOC_PFX2 = '<q:parentB xmlns:q="urn:b" xmlns:p="urn:q" p:k="q:v"/>'
 DOC_LATE = '<late xmlns="urn:late"><z>1</z></late>'
+XSI_NS = 'xmlns:xsi="http://www.w3.org/2001/XMLSchema-instance"'
+# the same prefix p bound to different namespaces in consecutive documents, used by xsi:type on the ROOT
+DOC_ROOT_XSI_T = f'<p:item xmlns:p="urn:t" {XSI_NS} xsi:type="p:special"><p:v>a</p:v><p:extra>e</p:extra></p:item>'
+DOC_ROOT_XSI_OTHER = f'<p:thing xmlns:p="urn:elsewhere" xmlns:t="urn:t" {XSI_NS} xsi:type="t:special"><t:v>b</t:v></p:thing>'
+DOC_PFX_ELSEWHERE = '<p:parentB xmlns:p="urn:b" xmlns:t="urn:elsewhere" t:k="v"/>'
+DOC_UNION_BAD = '<udoc xmlns="urn:t"><u><nothing/></u></udoc>'
+DOC_UNION_OK = '<udoc xmlns="urn:t" count="3"><u><y>2</y></u></udoc>'
+DOC_UNION_BADCOUNT = '<udoc xmlns="urn:t" count="abc"/>'
+
+DUP_SRC = '''
+from dataclasses import dataclass, field
+from typing import Optional
+@dataclass
+class DocTwin:
+    class Meta:
+        name = "doc"
+        namespace = "urn:t"
+    twin: Optional[str] = field(default=None, metadata={"type": "Element"})
+'''
+_DUP_MOD = None
+
+
+def _dup(s):
+    """A later-imported module that defines another class with the qname {urn:t}doc."""
+    global _DUP_MOD
+    name = "vmc_dup_module"
+    if _DUP_MOD is None:
+        _DUP_MOD = types.ModuleType(name)
+        sys.modules[name] = _DUP_MOD
+        exec(DUP_SRC, _DUP_MOD.__dict__)
+    sys.modules[name] = _DUP_MOD
+    if name not in s.modules:
+        s.modules.append(name)
 
 OPS = collections.OrderedDict([
     ("parse_A", lambda s: s.parser.from_string(DOC_A, M.ParentA)),
@@ -109,6 +142,15 @@ OPS = collections.OrderedDict([
     ("json_decode_B", lambda s: s.json_parser.from_string('{"c": {"p": "2"}, "attrs": {}}', M.ParentB)),
     ("json_encode_A", lambda s: s.json_serializer.render(M.ParentA(c=M.Plain(p="1")))),
     ("serialize_doc_special", lambda s: s.serializer.render(M.Doc(item=M.Special(v="a", extra="e")))),
+    ("parse_root_xsi_p_is_t", lambda s: s.parser.from_string(DOC_ROOT_XSI_T, M.Item)),
+    ("parse_p_is_elsewhere", lambda s: s.parser.from_string(DOC_PFX_ELSEWHERE, M.ParentB)),
+    ("parse_root_xsi_t_prefix", lambda s: s.parser.from_string(DOC_ROOT_XSI_OTHER, M.Item)),
+    ("import_twin_then_parse_untyped", lambda s: (_dup(s), s.parser.from_string('<doc xmlns="urn:t"/>'))[1]),
+    ("parse_union_fails", lambda s: s.parser.from_string(DOC_UNION_BAD, M.UnionDoc)),
+    ("parse_union_ok", lambda s: s.parser.from_string(DOC_UNION_OK, M.UnionDoc)),
+    ("parse_union_badcount_warns", lambda s: s.parser.from_string(DOC_UNION_BADCOUNT, M.UnionDoc)),
+    ("serialize_anybox_ratio", lambda s: s.serializer.render(M.AnyBox(value=M.Ratio(0.5)))),
+    ("serialize_ratiobox", lambda s: s.serializer.render(M.RatioBox(r=M.Ratio(0.5)))),
 ])
 OP_NAMES = list(OPS)
 
@@ -158,6 +200,43 @@ def flat_state(s: Shared) -> dict:
 
 def reset_env():
     sys.modules.pop("vmc_late_module", None)
+    sys.modules.pop("vmc_dup_module", None)
+
+
+PRISTINE: dict = {}
+
+
+def res_sig(r) -> tuple:
+    (kind, v), w = r
+    return (kind, f"{type(v).__name__}: {v}" if kind == "exc" else repr(v), w)
+
+
+def _pristine_one(item):
+    """Runs in a process forked from the pristine parent for exactly one operation."""
+    name, mods = item
+    reset_env()
+    s = Shared()
+    for m in mods:
+        if m == "vmc_late_module":
+            _late(s)
+        elif m == "vmc_dup_module":
+            _dup(s)
+    return (name, mods, res_sig(run_op(name, s)))
+
+
+def compute_pristine():
+    """Result of every operation on fresh objects in a process that has run NOTHING else (one
+    forked child per operation), per set of late modules present.  Catches state leaking into
+    process-wide singletons, which 'fresh instances created afterwards' would share."""
+    import multiprocessing as mp
+    items = []
+    for mods in ((), ("vmc_late_module",), ("vmc_dup_module",), ("vmc_late_module", "vmc_dup_module"), ("vmc_dup_module", "vmc_late_module")):
+        for name in OP_NAMES:
+            items.append((name, mods))
+    ctx = mp.get_context("fork")
+    with ctx.Pool(16, maxtasksperchild=1) as pool:
+        for name, mods, sig in pool.imap_unordered(_pristine_one, items, chunksize=1):
+            PRISTINE[(name, tuple(sorted(mods)))] = PRISTINE.get((name, tuple(sorted(mods))), set()) | {sig}
 
 
 def expand(hist: tuple):
@@ -170,9 +249,16 @@ def expand(hist: tuple):
             got = run_op(name, s)
             exp = fresh_result(name, s.modules)
             ok = res_equal(got, exp)
+            leak = ""
+            if ok and PRISTINE:
+                want = PRISTINE.get((name, tuple(sorted(s.modules))))
+                if want is not None and res_sig(exp) not in want:
+                    ok = False
+                    leak = (f"after history {list(hist)}: {name} on FRESH instances gives {res_str(exp)}, but in a process that ran nothing else it gives "
+                            f"{sorted(want)[0][1][:300]} (state leaked into a process-wide object)")
             flat = flat_state(s)
             dig = h(repr(sorted(flat.items())))
-            detail = "" if ok else f"after history {list(hist)}: {name} on the shared instances gives {res_str(got)}; on fresh instances {res_str(exp)}"
+            detail = "" if ok else (leak or f"after history {list(hist)}: {name} on the shared instances gives {res_str(got)}; on fresh instances {res_str(exp)}")
             out.append((name, dig, ok, detail, len(flat)))
         finally:
             s.close()
@@ -195,13 +281,15 @@ def classify(hist: tuple, op: str, detail: str) -> str:
         wrong_ns_on_parse = op.startswith("parse") and ("Unknown property" in detail and ":p" in detail.replace("}p", ":p"))
         if wrong_ns_in_output or wrong_ns_on_parse:
             return "KF/metadata-cache-keyed-by-class-ignores-parent-namespace"
-    prior = sorted(set(hist))
-    return f"{op}/after/" + "+".join(prior[:3])
+    if "process that ran nothing else" in detail:
+        return f"{op}/fresh-differs-from-pristine-process"
+    return f"{op}/shared-differs-from-fresh"
 
 
 def run(tier: str, seed: int) -> int:
     t0 = time.time()
-    depth = 5 if tier == "thorough" else 4
+    depth = 4 if tier == "thorough" else 3
+    compute_pristine()
     # finish the library's lazy imports before anything is compared
     expand(())
     # determinism of build/canon: same history twice -> same digest
